@@ -767,7 +767,8 @@ fn run_mt_slow(t: char, big: usize) -> (String, String, String, String) {
             }
             let mut bad = 0;
             for seq in 0..counts[th] {
-                let m = mk(th, seq, if th == 0 { big } else { 200 });
+                // thread 1 sends empty messages (a frame of one byte): they must wait for the lock like any other
+                let m = if th == 1 { vec![] } else { mk(th, seq, if th == 0 { big } else { 200 }) };
                 if h.network().send(ep, &m) != SendStatus::Sent {
                     bad += 1;
                 }
@@ -786,7 +787,13 @@ fn run_mt_slow(t: char, big: usize) -> (String, String, String, String) {
     let msgs = got.lock().unwrap().clone();
     let mut toks = vec![];
     let mut corrupt = 0;
+    let mut empties = 0;
     for m in &msgs {
+        if m.is_empty() {
+            toks.push(format!("1.{}", empties));
+            empties += 1;
+            continue
+        }
         if m.len() < 16 {
             corrupt += 1;
             continue
